@@ -241,9 +241,19 @@ inductive DialErr where
 /-- Result of `p.connect(req)`. -/
 inductive Connect where
   | failed (k : DialErr)    -- `cerr != nil`, whatever the error is
-  | ok (ahead : Bytes)      -- connection; `ahead`: tunnel bytes read together with the downstream proxy's
-                            -- 2xx head (they become res.Body); always empty for a direct dial
+  | answered (status : Nat) (ahead : Bytes)
+      -- a connection, and the response the handler goes on with. Direct dial: `answered 200 []`
+      -- (proxyutil.NewResponse(200)). Downstream proxy: its own answer, status relayed as it is;
+      -- for EVERY 2xx (`res.StatusCode/100 == 2`: 200, 201, 202, 204, 299 …, any reason phrase, any headers)
+      -- `ahead` = the tunnel bytes read ahead together with the head (they become res.Body); for any
+      -- other status `ahead` = the body of that answer as its framing delimits it. `handleConnectRequest`
+      -- does not look at the status: head, `ahead`, then the two copies, in every case.
   deriving Repr, DecidableEq
+
+/-- A tunnel is established: the direct dial succeeded, or the downstream proxy acknowledged with any 2xx. -/
+def Connect.established : Connect → Bool
+  | .answered st _ => st / 100 == 2
+  | .failed _ => false
 
 structure Out where
   status : Nat
@@ -278,14 +288,14 @@ def handleConnectWith (linger : CloseKind) (cfg : Cfg) (c : Connect) (early : By
   | .failed _ =>
     -- res = 502 (a constant: the error kind is only copied into the Warning header); proxyutil.Warning(res.Header, cerr); resmod; res.Write(brw); brw.Flush(); return err
     { status := 502, warning := true, toClient := [], toTarget := [], released := false, kept := true }
-  | .ok ahead =>
+  | .answered st ahead =>
     -- res.Write(brw) writes the head and then res.Body (= ahead); brw.Flush()
     let pre := optWrite ahead
     let u := upPump cfg early up
     let d := downPump cfg down
     -- <-donec; <-donec; return errClose  (then the deferred Close of both connections)
     let rel := u.1.finished && d.1.finished
-    { status := 200, warning := false,
+    { status := st, warning := false,
       toClient := pre ++ d.2 ++ releaseActs rel .graceful,
       toTarget := u.2 ++ releaseActs rel linger,
       released := rel }
